@@ -14,25 +14,32 @@ structure S where
 
 def look {α : Type} (xs : List (String × α)) (k : String) : Option α := (xs.find? (·.1 == k)).map (·.2)
 
+def known (s : S) (ids : List String) : Bool := ids.all fun id => (look s.audio id).isSome
+
 def step (s : S) (w : List String) : S × String :=
   match w with
   | ["reset"] => ({ digest := [], audio := [] }, "ok")
   | ["rom", id, _, _, aud] | ["rom", id, _, _, aud, _] => ({ s with audio := (id, aud == "1") :: s.audio }, "ok")
   | ["expect", id, _, d] => ({ s with digest := (id, d) :: s.digest }, "ok")
   | ["again", id, _] | ["sub", id, _] | ["manual", id, _] =>
+    if !known s [id] then (s, "no-config") else
     (s, (look s.digest id).getD "no-expectation")
   | ["pair", a, b, _, _] | ["conc", a, b, _] =>
+    if !known s [a, b] then (s, "no-config") else
     (s, (look s.digest a).getD "no-expectation" ++ " " ++ (look s.digest b).getD "no-expectation")
   | ["runclose", id, k] =>
+    if !known s [id] then (s, "no-config") else
     (s, s!"frames={k} display-cleanups=1 speaker-cleanups={if (look s.audio id).getD false then "1" else "-1"}")
-  | ["runcancel", _, _] | ["rundeadline", _, _] => (s, "extra-frames-le-1=1 display-cleanups=1")
-  | ["tphase", _, _, _, _, _] => (s, "same")
-  | ["after", _, _, b, _] => (s, (look s.digest b).getD "no-expectation")
-  | ["serlong", _, _] => (s, "serial-complete=1 in-order=1")
-  | ["serconc", _, _] => (s, "a-own-bytes=1 b-own-bytes=1")
-  | ["cfgs", _, _] => (s, "same")
-  | ["slowwriter", _, _, _, _] => (s, "same")
-  | ["runcancelw", _, _] => (s, "whole-frames=1 display-cleanups=1")
+  | ["runcancel", id, _] | ["rundeadline", id, _] =>
+    if !known s [id] then (s, "no-config") else (s, "extra-frames-le-1=1 display-cleanups=1")
+  | ["tphase", id, _, _, _, _] => if !known s [id] then (s, "no-config") else (s, "same")
+  | ["after", a, _, b, _] =>
+    if !known s [a, b] then (s, "no-config") else (s, (look s.digest b).getD "no-expectation")
+  | ["serlong", id, _] => if !known s [id] then (s, "no-config") else (s, "serial-complete=1 in-order=1")
+  | ["serconc", a, b] => if !known s [a, b] then (s, "no-config") else (s, "a-own-bytes=1 b-own-bytes=1")
+  | ["cfgs", id, _] => if !known s [id] then (s, "no-config") else (s, "same")
+  | ["slowwriter", id, _, _, _] => if !known s [id] then (s, "no-config") else (s, "same")
+  | ["runcancelw", id, _] => if !known s [id] then (s, "no-config") else (s, "whole-frames=1 display-cleanups=1")
   | _ => (s, "bad-op")
 
 def run (lines : Array String) : IO Unit := runMode lines 1 { digest := [], audio := [] } step
